@@ -259,14 +259,14 @@ def rule_rw(prog: Program, report: Report) -> None:
     content (NodeContext.finish, ParseContext.add_text_node) only the explicit
     HTML class may be used."""
     report.rules.append("RW")
-    keys = ["prosemirror/model/from_dom.py::NodeContext.finish", "prosemirror/model/from_dom.py::ParseContext.add_text_node"]
+    keys = ["prosemirror/model/from_dom.py::NodeContext.finish", "prosemirror/model/from_dom.py::ParseContext.add_text_node", "prosemirror/model/from_dom.py::DOMParser.parse"]
     n = 0
     for k in keys:
         fn = prog.func(k)
         for c in walk_own(fn.node):
             if isinstance(c, ast.Call) and isinstance(c.func, ast.Attribute) and c.func.attr in ("strip", "rstrip", "lstrip") and not c.args:
                 n += 1
-                report.violate("RW", fn, c, f"`{src(c)[:60]}` strips Unicode whitespace", "str.strip/rstrip/lstrip without an argument also remove NBSP, EM SPACE, IDEOGRAPHIC SPACE ...; HTML collapsible whitespace is only [ \\t\\r\\n\\f], so document text loses characters on import", what="text content is trimmed with the HTML whitespace class only")
+                report.violate("RW", fn, c, f"`{src(c)[:60]}` strips Unicode whitespace", "str.strip/rstrip/lstrip without an argument also remove NBSP, EM SPACE, IDEOGRAPHIC SPACE ...; HTML collapsible whitespace is only [ \\t\\r\\n\\f], so document text loses characters on import (in DOMParser.parse the test `x.strip()` also drops every whitespace-only text between two inline elements before add_text_node - which knows when whitespace is significant - ever sees it: the space between differently marked words is lost)", what="text content is trimmed with the HTML whitespace class only")
             if isinstance(c, ast.Constant) and isinstance(c.value, str) and "\\s" in c.value and isinstance(parent_of(c), ast.Call):
                 n += 1
                 report.violate("RW", fn, c, f"regex `{c.value}` uses \\s", "\\s matches Unicode whitespace; HTML collapsible whitespace is only [ \\t\\r\\n\\f]", what="text content is matched with the HTML whitespace class only")
